@@ -380,6 +380,12 @@ class Executor:
                 getattr(o, "node", node),
                 kind="raises",
             )
+        # intermediate steps of the sidecar (lemmas at the exit): each is proved under what is known
+        # so far, then assumed for the later steps and for the postconditions
+        if hasattr(c, "steps"):
+            for name, goal in c.steps(post):
+                self.oblige("step: " + name, st, goal, node, kind="post")
+                st.assume(goal)
         for name, goal in c.ensures(post).items():
             self.oblige(name, st, goal, node, kind="post")
         if hasattr(c, "allocates"):
@@ -393,8 +399,8 @@ class Executor:
             mods = self.modifies_terms
             goals = []
             for hn in list(st.heap):
-                if hn == "alloc":
-                    continue
+                if hn == "alloc" or hn.startswith(("g:", "gi:")):
+                    continue  # ghost state is specification state: described by the ensures, not framed
                 cur, old = st.heap[hn], T.heap0(hn)
                 if cur.eq(old):
                     continue
@@ -768,6 +774,8 @@ class Executor:
             v = z3.Const("fv", Val)
             if hn == "alloc":
                 st.assume(T.forall([v], z3.Implies(old[v], new[v]), patterns=[new[v]]))
+            elif hn.startswith(("g:", "gi:")):
+                pass  # ghost arrays are fully havocked: the invariant says what is known about them
             else:
                 mods = self.modifies_terms
                 st.assume(
@@ -1701,7 +1709,17 @@ class Executor:
         return eval_setcomp(self, node, st)
 
     def expr_GeneratorExp(self, node, st):
-        raise Unsupported("generator expression outside a supported call")
+        """a generator expression bound to a name / passed on: evaluated eagerly as the list of its
+        elements.  Sound only when neither the filter nor the element expression can raise or has an
+        effect (checked: no exceptional outcome), since a generator runs them when it is consumed"""
+        from .calls import eval_listcomp
+
+        comp = ast.ListComp(elt=node.elt, generators=node.generators)
+        ast.copy_location(comp, node)
+        outs = eval_listcomp(self, comp, st)
+        if any(k == "exc" for _, k, _ in outs):
+            raise Unsupported(f"generator expression whose elements may raise at {self.where(node)}")
+        return outs
 
 
 _QCACHE: Dict[int, bool] = {}
